@@ -5,13 +5,11 @@ import os
 # which of the repairs of C10-F1 (637ae67), C10-F2 (c971513), C10-F3 (e0dc5e2) the tree under test contains ("1" = present).
 # Default 111 = /repo as it is now.  VERIF_C10_FIXED=000 selects the model of the originally pinned code (for experiments against an
 # old checkout only; with the findings recorded as fixed, its defect behaviour is then reported as VIOLATION, as it should be).
-_FIXED = (os.environ.get("VERIF_C10_FIXED", "111") + "111")[:3]
+_FIXED = (os.environ.get("VERIF_C10_FIXED", "11100") + "11100")[:5]
 _CHECK = "check (mkfx %s)" % " ".join("true" if d == "1" else "false" for d in _FIXED)
 
 OVERLAY = {
     "internal/zzverif/c10/c10_test.go": "c10/c10_test.go",
-    "internal/rules/mechanisms/authenticators/zz_verif_c10_export.go": "c10/export_authn.go",
-    "internal/rules/oauth2/clientcredentials/zz_verif_c10_export.go": "c10/export_cc.go",
 }
 
 P = {
@@ -27,7 +25,7 @@ P = {
     "streams": [{
         "name": "all", "pkg": "./internal/zzverif/c10", "test": "TestVerifC10", "overlay": OVERLAY,
         "eval_module": "Run.Eval_C10", "check_term": _CHECK,
-        "n_quick": 1200, "n_thorough": 30000, "findings": {}, "shard": 300,
+        "n_quick": 1200, "n_thorough": 30000, "findings": {4: "C10-F4", 5: "C10-F5"}, "shard": 300,
     }],
     "rule": "one overlay-only driver, five case kinds, corpus (witnesses of the repaired C10-F1/F2/F3) first: "
             "fn (40%): one call of the REAL getCacheTTL of oauth2_introspection / jwt (JWK cache) / generic authenticator / "
